@@ -182,6 +182,31 @@ def float_narrowings(t):
     return out
 
 
+def merge_complementary(calls):
+    """`if c: xs.append(a) else: xs.append(b)` is `xs.append(a if c else b)`: two calls of the same method on the same receiver whose paths differ only
+    in the polarity of their last condition are replaced by one call whose argument is the phi over that condition"""
+    import types
+    calls = list(calls)
+    changed = True
+    while changed:
+        changed = False
+        for x_ in range(len(calls)):
+            for y_ in range(x_ + 1, len(calls)):
+                a, b = calls[x_], calls[y_]
+                if a.target == b.target and a.recv == b.recv and len(a.args) == 1 and len(b.args) == 1 and a.path and b.path and len(a.path) == len(b.path) and \
+                        tuple(a.path[:-1]) == tuple(b.path[:-1]) and a.path[-1][0] == b.path[-1][0] and {a.path[-1][1], b.path[-1][1]} == {True, False} and a.loops == b.loops:
+                    t_, e_ = (a, b) if a.path[-1][1] is True else (b, a)
+                    m = types.SimpleNamespace(**{k: getattr(t_, k, None) for k in ("recv", "node", "loops", "order", "kwargs", "callkind", "target", "kind", "qname", "root", "func")})
+                    m.path = tuple(t_.path[:-1])
+                    m.args = [("phi", t_.path[-1][0], t_.args[0], e_.args[0])]
+                    calls = [c_ for k_, c_ in enumerate(calls) if k_ not in (x_, y_)] + [m]
+                    changed = True
+                    break
+            if changed:
+                break
+    return calls
+
+
 def call_terms(path_or_term, qname):
     """all ('call', qname, ...) sub-terms"""
     return [x for x in walk(path_or_term) if isinstance(x, tuple) and len(x) == 4 and x[0] == "call" and x[1] == qname]
